@@ -204,7 +204,7 @@ func recvHandler(w *workerCtx, line []byte) (any, error) {
 			} else {
 				obs.Result = "ok"
 			}
-		case <-time.After(30 * time.Second):
+		case <-idleAfter(30 * time.Second):
 			obs.Result, obs.Err = "err", fmt.Sprintf("receiver did not finish (sender side: %v)", err)
 		}
 	}
